@@ -52,6 +52,12 @@ type BusinessActionContext struct {
 type ContextVariable struct {
 	FencePhase     enum.FencePhase
 	FenceTxBegined bool
+	// FenceApplied: the fence step of the phase has been applied through THIS context (by the fence driver): the
+	// delivery is under way, a further transaction it opens is a plain one
+	FenceApplied bool
+	// FenceNothingToDo: the fence driver has refused this delivery a transaction because the phase has been
+	// applied before, or its try never ran
+	FenceNothingToDo bool
 
 	BusinessActionContext *BusinessActionContext
 	// GlobalTransaction Represent seata ctx is a global transaction
@@ -183,11 +189,41 @@ func GetTx(ctx context.Context) (tx *GlobalTransaction) {
 	return
 }
 
+// SetFencePhase says which phase the delivery that begins with this call is
 func SetFencePhase(ctx context.Context, phase enum.FencePhase) {
 	variable := ctx.Value(seataContextVariable)
 	if variable != nil {
 		variable.(*ContextVariable).FencePhase = phase
+		// (what an earlier delivery left on a context the application uses again does not apply to this one)
+		variable.(*ContextVariable).FenceApplied = false
+		variable.(*ContextVariable).FenceNothingToDo = false
 	}
+}
+
+func SetFenceApplied(ctx context.Context, applied bool) {
+	if variable := ctx.Value(seataContextVariable); variable != nil {
+		variable.(*ContextVariable).FenceApplied = applied
+	}
+}
+
+func IsFenceApplied(ctx context.Context) bool {
+	if variable := ctx.Value(seataContextVariable); variable != nil {
+		return variable.(*ContextVariable).FenceApplied
+	}
+	return false
+}
+
+func SetFenceNothingToDo(ctx context.Context, nothingToDo bool) {
+	if variable := ctx.Value(seataContextVariable); variable != nil {
+		variable.(*ContextVariable).FenceNothingToDo = nothingToDo
+	}
+}
+
+func IsFenceNothingToDo(ctx context.Context) bool {
+	if variable := ctx.Value(seataContextVariable); variable != nil {
+		return variable.(*ContextVariable).FenceNothingToDo
+	}
+	return false
 }
 
 func GetFencePhase(ctx context.Context) enum.FencePhase {
